@@ -107,11 +107,9 @@ class RankBasedPreferenceSorting(RankingFunction, Generic[C]):
             ranked_solutions = len(zero_front)
             comparator: DominanceComparator[C] = DominanceComparator(goals=uncovered_goals)
 
-            remaining: list[C] = []
-            remaining.extend(solutions)
-            for element in zero_front:
-                if element in remaining:
-                    remaining.remove(element)
+            # Individuals are told apart by identity: a population regularly holds
+            # structurally equal individuals, and each of them needs its own front.
+            remaining: list[C] = self._without(solutions, zero_front)
 
             while (
                 ranked_solutions < config.configuration.search_algorithm.population
@@ -121,23 +119,31 @@ class RankBasedPreferenceSorting(RankingFunction, Generic[C]):
                     remaining, comparator, front_index
                 )
                 fronts.append(new_front)
-                for element in new_front:
-                    if element in remaining:
-                        remaining.remove(element)
+                remaining = self._without(remaining, new_front)
                 ranked_solutions += len(new_front)
                 front_index += 1
 
         else:
-            remaining = []
-            remaining.extend(solutions)
-            for element in zero_front:
-                if element in remaining:
-                    remaining.remove(element)
+            remaining = self._without(solutions, zero_front)
             for element in remaining:
                 element.rank = front_index
             fronts.append(remaining)
 
         return RankedFronts(fronts)
+
+    @staticmethod
+    def _without(solutions: list[C], front: list[C]) -> list[C]:
+        """Provide the solutions that are not members of the front.
+
+        Args:
+            solutions: The solutions
+            front: The front whose members shall be left out
+
+        Returns:
+            The solutions (in their order) that are no member of the front
+        """
+        members = {id(element) for element in front}
+        return [solution for solution in solutions if id(solution) not in members]
 
     @staticmethod
     def _get_zero_front(
